@@ -78,7 +78,7 @@ fn first_known_k(ops: &[FsOp], strict_remove: bool) -> Option<&'static str> {
         if mo == Obs::Unjudged {
             break;
         }
-        guard_step(&mut gs, op, &mo);
+        guard_step(&mut gs, op, &mo, &m);
         seg.push(op.clone());
     }
     let _ = (first_guard_violation as fn(&[FsOp]) -> Option<&'static str>, c07_guard as fn(&[FsOp]) -> Option<&'static str>);
@@ -138,7 +138,7 @@ impl Property for C07 {
                 if mo == crate::fskit::model::Obs::Unjudged {
                     break;
                 }
-                guard_step(&mut gs, &op, &mo);
+                guard_step(&mut gs, &op, &mo, &m);
                 ops.push(op);
             }
         }
@@ -156,7 +156,7 @@ impl Property for C07 {
                 op = g.op(&m, &gs);
             }
             let mo = exec_model(&mut m, &op);
-            guard_step(&mut gs, &op, &mo);
+            guard_step(&mut gs, &op, &mo, &m);
             ops.push(op);
         }
         Scenario { guarded, knobs, ops, in_sim: false, ops2: vec![], finish_before_crash: false }
